@@ -510,3 +510,39 @@ Proof.
     + exfalso. apply ne. rewrite <- e' in Hix.
       eapply (proj1 (NoDup_nth_error names) Hnd); [apply nth_error_Some; congruence|]. rewrite Hix, Hsn. reflexivity.
 Qed.
+
+(* ---------- the label-based constructors ---------- *)
+Lemma index_of_in names l : In l names -> exists k, index_of names l = Some k.
+Proof.
+  induction names; simpl; intros H; [destruct H|].
+  destruct (Nat.eqb_spec a l); [eauto|]. destruct H as [H | H]; [congruence|].
+  destruct (IHnames H) as [k Hk]. rewrite Hk. eauto.
+Qed.
+
+(* grouping by label through the constructors: two integration points get the same row exactly when they carry the same
+   label; the row is the position of the first occurrence of that label; entry (s,i) is the weight of point i when s is
+   that position and zero otherwise; the matrix has one row per integration point *)
+Lemma ctor_groups_by_label : forall (labels : list nat) (w : list R),
+  fst (ctor_weights_matrix Rops labels w) = length labels /\
+  length (ctor_index labels) = length labels /\
+  (forall i li, nth_error labels i = Some li ->
+     exists k, nth_error (ctor_index labels) i = Some k /\ index_of labels li = Some k /\ nth_error labels k = Some li /\
+     forall s wi, nth_error w i = Some wi -> weights_entry Rops (ctor_index labels) w s i = if Nat.eqb k s then wi else 0) /\
+  (forall i j li lj ki kj, nth_error labels i = Some li -> nth_error labels j = Some lj ->
+     nth_error (ctor_index labels) i = Some ki -> nth_error (ctor_index labels) j = Some kj -> (ki = kj <-> li = lj)).
+Proof.
+  intros labels w.
+  assert (Hix : forall i li, nth_error labels i = Some li ->
+            exists k, nth_error (ctor_index labels) i = Some k /\ index_of labels li = Some k /\ nth_error labels k = Some li).
+  { intros i li Hi. unfold ctor_index. rewrite nth_error_map, Hi. simpl.
+    destruct (index_of_in labels li (nth_error_In _ _ Hi)) as [k Hk]. rewrite Hk.
+    exists k. repeat split; auto. apply index_of_some; auto. }
+  split; [reflexivity|]. split; [unfold ctor_index; apply map_length|]. split.
+  - intros i li Hi. destruct (Hix i li Hi) as (k & H1 & H2 & H3). exists k. repeat split; auto.
+    intros s wi Hw. unfold weights_entry. rewrite H1, Hw. reflexivity.
+  - intros i j li lj ki kj Hi Hj Hki Hkj.
+    destruct (Hix i li Hi) as (k & H1 & H2 & H3). destruct (Hix j lj Hj) as (k' & H1' & H2' & H3').
+    rewrite H1 in Hki. rewrite H1' in Hkj. inversion Hki; inversion Hkj; subst. split.
+    + intro E. subst. congruence.
+    + intro E. subst. congruence.
+Qed.
